@@ -481,7 +481,30 @@ func quickCases() []*Case {
 	return cs
 }
 
-// thoroughCases: (A) every layout x every option set with <= 1 deviation; (B) every option set
+// coveringLayouts: 12 of the 48 layouts such that every pair of values of two different layout
+// dimensions occurs together: every (exec, resolver) combination with two of the four rows of the
+// orthogonal array over (worker_limit, models, model package).
+func coveringLayouts() []Layout {
+	rows := [][3]string{{"0", "generated", "separate"}, {"0", "autobind", "same"}, {"2", "generated", "same"}, {"2", "autobind", "separate"}}
+	var out []Layout
+	i := 0
+	for _, e := range []string{"single-file", "follow-schema"} {
+		for _, r := range []string{"single-file", "follow-schema", "none"} {
+			for _, k := range []int{i % 4, (i + 2) % 4} {
+				w := 0
+				if rows[k][0] == "2" {
+					w = 2
+				}
+				out = append(out, Layout{e, r, w, rows[k][1], rows[k][2]})
+			}
+			i++
+		}
+	}
+	return out
+}
+
+// thoroughCases: (A) every layout with the default options, and every single deviation under
+// the 12 covering layouts; (B) every option set
 // with exactly 2 deviations under two main layouts; (C) small feature schemas and all naming
 // projects under the main layouts.
 func thoroughCases() []*Case {
@@ -513,6 +536,9 @@ func thoroughCases() []*Case {
 		}
 	}
 	for _, l := range allLayouts() {
+		add(featureCase(Config{Layout: l}))
+	}
+	for _, l := range coveringLayouts() {
 		for _, d := range optionSets(l, 1) {
 			add(featureCase(Config{Layout: l, Dev: d}))
 		}
@@ -913,7 +939,7 @@ func bounds(tier string, cases []*Case) map[string]any {
 		"distinct_schemas":  len(schemas),
 		"distinct_configs":  len(cfgs),
 		"max_deviations":    2,
-		"thorough_product":  "all 48 layouts (exec x resolver x worker_limit x models x model package) x (<=1 deviation) + 2 main layouts x (exactly 2 deviations) + small feature schemas x 3 layouts + naming projects x 2 layouts",
+		"thorough_product":  "all 48 layouts (exec x resolver x worker_limit x models x model package) x defaults + 12 pairwise-covering layouts x (exactly 1 deviation) + 2 main layouts x (exactly 2 deviations) + small feature schemas x 3 layouts + naming projects x 2 layouts",
 		"quick_selection":   "14 feature-schema configurations (0 to 2 deviations; every value of every layout dimension incl. models in the exec package) + the equal-typed method-order project + packed naming projects",
 		"feature_schema":    "4 files: objects, interfaces incl. interface-implements-interface, unions, enums, inputs (recursive, @oneOf), nested list/non-null wrappers, defaults of every kind, custom directives on all 19 locations, built-in directives, subscription, extend type/enum/union/input across files, descriptions with quotes/backticks/comment terminators",
 	}
